@@ -320,9 +320,9 @@ Proof. vm_compute. split; reflexivity. Qed.
 
 (* ---- one pass: the old language is the one-step fragment ---- *)
 Lemma item_ok_needs_child a b t it : needs_child t = true -> item_ok a t it = item_ok b t it.
-Proof. destruct t; [discriminate|reflexivity|reflexivity]. Qed.
+Proof. destruct t; [discriminate|reflexivity|reflexivity|reflexivity]. Qed.
 Lemma run_test_needs_child a b c t : needs_child t = true -> run_test a c t = run_test b c t.
-Proof. destruct t; [discriminate|reflexivity|reflexivity]. Qed.
+Proof. destruct t; [discriminate|reflexivity|reflexivity|reflexivity]. Qed.
 Definition emb (all_sep : bool) (tc : tcase) : mcase :=
   {| m_from := 0; m_own := negb all_sep && needs_child (c_test tc); m_case := tc |}.
 Lemma emb_sep all_sep tc :
